@@ -58,7 +58,8 @@ def _work(args):
 # ---- known findings ----------------------------------------------------------------------------------
 
 def load_known():
-    p = os.path.join(VERIF, "known_findings.json")
+    # VERIF_KNOWN_FILE is only used by tools/make_known_replay.py (to re-demonstrate a listed finding)
+    p = os.environ.get("VERIF_KNOWN_FILE") or os.path.join(VERIF, "known_findings.json")
     if not os.path.exists(p):
         return []
     with open(p) as f:
